@@ -121,6 +121,14 @@ def gen_script(rng, model, flavour):
 
 
 CORPUS = [
+    # a long unbounded loop: the exponential is far beyond MaxBackoff (and beyond int64) but the wait stays at the cap
+    {"Opts": {"InitialNs": 1 * MS, "MaxNs": 2 * MS, "MultNum": 2, "MultDen": 1, "RandNum": 1, "RandDen": 20, "MaxRetries": 0},
+     "UseCloser": False, "StartClosed": False, "StartCancelled": False, "flavour": "next",
+     "Ops": [{"K": "n", "Us": 0} for _ in range(72)]},
+    # a steep multiplier: the cap is reached at the second wait and must hold from then on
+    {"Opts": {"InitialNs": 1 * MS, "MaxNs": 6 * MS, "MultNum": 1000000, "MultDen": 1, "RandNum": 1, "RandDen": 10, "MaxRetries": 0},
+     "UseCloser": False, "StartClosed": False, "StartCancelled": False, "flavour": "mixed",
+     "Ops": [{"K": k, "Us": 0} for k in ["n", "n", "n", "h", "n", "h", "n", "n"]]},
     # Reset, then the closer is closed, then Next (the pending immediate attempt)
     {"Opts": {"InitialNs": 5 * MS, "MaxNs": 20 * MS, "MultNum": 2, "MultDen": 1, "RandNum": 3, "RandDen": 20, "MaxRetries": 0},
      "UseCloser": True, "StartClosed": False, "StartCancelled": False, "flavour": "next",
